@@ -1,8 +1,10 @@
 import XixiKV.Proofs.Frame
 import XixiKV.Proofs.Chunk
 /-! Truncation proofs (property C03 at the byte level): scanning ANY truncation of a written file
-    yields exactly the records that lie wholly inside the cut, ends with EOF, and reports as
-    `validEnd` the end of the last complete record. -/
+    with the reader that tolerates a torn tail (`tol = true`, the reader of the active file) yields
+    exactly the records that lie wholly inside the cut, ends with EOF, and reports as `validEnd` the
+    end of the last complete record.  The strict reader (`tol = false`, every other reader) reports
+    a file that ends inside a chunk as an error (`scan_truncate_strict`). -/
 namespace XixiKV.Frame
 open XixiKV
 variable (C : Codec)
@@ -32,7 +34,7 @@ theorem extract0_append_le (a b : ByteArray) (n : Nat) (h : n ≤ a.size) :
 theorem chunkSeq_cut (pre p : ByteArray) (t : CT) (block off k : Nat)
     (hpre : pre.size = block * BS + off) (hfit : off + H + p.size ≤ BS) (hp : p.size ≤ 65535)
     (hk : k < H + p.size) :
-    chunkSeq C (pre ++ (C.enc t p).extract 0 k) block off = .eof := by
+    chunkSeq C true (pre ++ (C.enc t p).extract 0 k) block off = .eof := by
   have hH := hH; have hBS := hBS
   have hs := C.size_enc t p
   have hes : ((C.enc t p).extract 0 k).size = k := size_extract0 _ _ (by omega)
@@ -54,7 +56,7 @@ theorem chunkSeq_cut (pre p : ByteArray) (t : CT) (block off k : Nat)
         rw [extract_all _ _ (by omega)]
       rw [hex, C.dec_short t p k hp hk]
       simp only []
-      rw [if_pos (Or.inl (by omega))]
+      rw [if_pos (Or.inl ⟨trivial, by omega⟩)]
 
 /-! ## a multi-chunk record, cut short -/
 
@@ -66,7 +68,7 @@ theorem size_enc_mid (d : ByteArray) (t : CT) (c : Nat) (hc : c ≤ d.size) :
 theorem nextAt_rest_cut (d : ByteArray) (fuel : Nat) :
     ∀ (pre : ByteArray) (block k rf : Nat), pre.size = block * BS → 0 < d.size → d.size ≤ fuel →
       k < (restChunks C d fuel).size → k < rf →
-      nextAt C (pre ++ (restChunks C d fuel).extract 0 k) block 0 rf = .eof := by
+      nextAt C true (pre ++ (restChunks C d fuel).extract 0 k) block 0 rf = .eof := by
   induction fuel generalizing d with
   | zero => intro pre block k rf _ h1 h2; omega
   | succ n ih =>
@@ -95,7 +97,7 @@ theorem nextAt_rest_cut (d : ByteArray) (fuel : Nat) :
           (by omega)]
       · rw [extract0_append_ge _ _ _ (by omega), hA, ← ByteArray.append_assoc]
         unfold nextAt
-        rw [chunkSeq_enc C pre _ (d.extract 0 (BS - H)) 2 block 0 (by omega) (by omega) (by omega)
+        rw [chunkSeq_enc C true pre _ (d.extract 0 (BS - H)) 2 block 0 (by omega) (by omega) (by omega)
           (by decide)]
         simp only []
         rw [if_neg (by decide)]
@@ -111,7 +113,7 @@ theorem nextAt_rest_cut (d : ByteArray) (fuel : Nat) :
 theorem nextAt_rec_cut (d pre : ByteArray) (block off k rf : Nat)
     (hpre : pre.size = block * BS + off) (hoff : off + H < BS) (hd : 0 < d.size)
     (hk : k < (recChunks C d off).size) (hrf : k < rf) :
-    nextAt C (pre ++ (recChunks C d off).extract 0 k) block off rf = .eof := by
+    nextAt C true (pre ++ (recChunks C d off).extract 0 k) block off rf = .eof := by
   have hH := hH; have hBS := hBS
   cases rf with
   | zero => omega
@@ -137,7 +139,7 @@ theorem nextAt_rec_cut (d pre : ByteArray) (block off k rf : Nat)
         (by omega)]
     · rw [extract0_append_ge _ _ _ (by omega), hA, ← ByteArray.append_assoc]
       unfold nextAt
-      rw [chunkSeq_enc C pre _ (d.extract 0 (BS - off - H)) 1 block off hpre (by omega) (by omega)
+      rw [chunkSeq_enc C true pre _ (d.extract 0 (BS - off - H)) 1 block off hpre (by omega) (by omega)
         (by decide)]
       simp only []
       rw [if_neg (by decide)]
@@ -155,7 +157,7 @@ theorem nextAt_rec_cut (d pre : ByteArray) (block off k rf : Nat)
     boundary) reads, from the end state of the file before that record, as end of file -/
 theorem nextAt_write_cut (d f : ByteArray) (m rf : Nat) (hd : 0 < d.size)
     (hm : m < (writeRec C d (f.size % BS)).size) (hrf : m < rf) :
-    nextAt C (f ++ (writeRec C d (f.size % BS)).extract 0 m) (endB f) (endO f) rf = .eof := by
+    nextAt C true (f ++ (writeRec C d (f.size % BS)).extract 0 m) (endB f) (endO f) rf = .eof := by
   have hH := hH; have hBS := hBS
   have hmod := mod_lt_BS f.size
   have hdm := size_split f.size
@@ -196,7 +198,7 @@ theorem scanFrom_truncate (fid : Nat) (ds : List ByteArray) :
       ∃ j, j ≤ ds.length ∧
         (appendAll C f (ds.take j)).size ≤ n ∧
         (j < ds.length → n < (appendAll C f (ds.take (j+1))).size) ∧
-        scanFrom C fid ((appendAll C f ds).extract 0 n) (endB f) (endO f) v fuel
+        scanFrom C true fid ((appendAll C f ds).extract 0 n) (endB f) (endO f) v fuel
           = { recs := (ds.take j).zip (posAll C fid f (ds.take j)),
               validEnd := if j = 0 then v else (appendAll C f (ds.take j)).size,
               ok := true } := by
@@ -210,7 +212,7 @@ theorem scanFrom_truncate (fid : Nat) (ds : List ByteArray) :
       simp only [appendAll, List.foldl_nil] at hn ⊢
       rw [extract_all f n hfn]
       simp only [scanFrom]
-      rw [nextAt_end C f f.size]
+      rw [nextAt_end C true f f.size]
       simp [posAll]
   | cons d t ih =>
     intro f v n fuel hpos hfn hn hfuel
@@ -244,7 +246,7 @@ theorem scanFrom_truncate (fid : Nat) (ds : List ByteArray) :
       have hT : (appendAll C f (d :: t)).extract 0 n
           = appendRec C f d ++ tail.extract 0 (n - (appendRec C f d).size) := by
         rw [hg, extract0_append_ge _ _ _ hge]
-      obtain ⟨b', o', hread, hend, h1, h2'⟩ := nextAt_write C d f
+      obtain ⟨b', o', hread, hend, h1, h2'⟩ := nextAt_write C true d f
         (tail.extract 0 (n - (appendRec C f d).size))
         ((appendRec C f d ++ tail.extract 0 (n - (appendRec C f d).size)).size + 1) hd
         (by rw [ByteArray.size_append]; omega)
@@ -279,7 +281,7 @@ theorem scan_truncate (fid : Nat) (ds : List ByteArray) (hpos : ∀ d ∈ ds, 0 
     ∃ j, j ≤ ds.length ∧
       (appendAll C ByteArray.empty (ds.take j)).size ≤ n ∧
       (j < ds.length → n < (appendAll C ByteArray.empty (ds.take (j+1))).size) ∧
-      scan C fid ((appendAll C ByteArray.empty ds).extract 0 n)
+      scan C true fid ((appendAll C ByteArray.empty ds).extract 0 n)
         = { recs := (ds.take j).zip (posAll C fid ByteArray.empty (ds.take j)),
             validEnd := (appendAll C ByteArray.empty (ds.take j)).size,
             ok := true } := by
@@ -341,43 +343,344 @@ theorem truncate_validEnd (ds : List ByteArray) (j n : Nat)
 theorem recover_truncate (fid : Nat) (ds : List ByteArray) (hpos : ∀ d ∈ ds, 0 < d.size) (n : Nat)
     (hn : n ≤ (appendAll C ByteArray.empty ds).size) :
     let T := (appendAll C ByteArray.empty ds).extract 0 n
-    ∃ j, j ≤ ds.length ∧ (scan C fid T).ok = true ∧
-      (scan C fid T).recs = (ds.take j).zip (posAll C fid ByteArray.empty (ds.take j)) ∧
-      (scan C fid T).validEnd ≤ T.size ∧
-      T.extract 0 (scan C fid T).validEnd = appendAll C ByteArray.empty (ds.take j) ∧
-      ∀ es, appendAll C (T.extract 0 (scan C fid T).validEnd) es
+    ∃ j, j ≤ ds.length ∧ (scan C true fid T).ok = true ∧
+      (scan C true fid T).recs = (ds.take j).zip (posAll C fid ByteArray.empty (ds.take j)) ∧
+      (scan C true fid T).validEnd ≤ T.size ∧
+      T.extract 0 (scan C true fid T).validEnd = appendAll C ByteArray.empty (ds.take j) ∧
+      ∀ es, appendAll C (T.extract 0 (scan C true fid T).validEnd) es
         = appendAll C ByteArray.empty (ds.take j ++ es) := by
   intro T
   obtain ⟨j, hj, hfit, _, hscan⟩ := scan_truncate C fid ds hpos n hn
   have hcut := truncate_validEnd C ds j n hfit
   refine ⟨j, hj, ?_, ?_, ?_, ?_, ?_⟩
-  · show (scan C fid ((appendAll C ByteArray.empty ds).extract 0 n)).ok = true
+  · show (scan C true fid ((appendAll C ByteArray.empty ds).extract 0 n)).ok = true
     rw [hscan]
-  · show (scan C fid ((appendAll C ByteArray.empty ds).extract 0 n)).recs = _
+  · show (scan C true fid ((appendAll C ByteArray.empty ds).extract 0 n)).recs = _
     rw [hscan]
-  · show (scan C fid ((appendAll C ByteArray.empty ds).extract 0 n)).validEnd
+  · show (scan C true fid ((appendAll C ByteArray.empty ds).extract 0 n)).validEnd
       ≤ ((appendAll C ByteArray.empty ds).extract 0 n).size
     rw [hscan, size_extract0 _ _ hn]; exact hfit
   · show ((appendAll C ByteArray.empty ds).extract 0 n).extract 0
-      (scan C fid ((appendAll C ByteArray.empty ds).extract 0 n)).validEnd = _
+      (scan C true fid ((appendAll C ByteArray.empty ds).extract 0 n)).validEnd = _
     rw [hscan]; exact hcut
   · intro es
     show appendAll C (((appendAll C ByteArray.empty ds).extract 0 n).extract 0
-      (scan C fid ((appendAll C ByteArray.empty ds).extract 0 n)).validEnd) es = _
+      (scan C true fid ((appendAll C ByteArray.empty ds).extract 0 n)).validEnd) es = _
     rw [hscan, appendAll_append]
     show appendAll C (((appendAll C ByteArray.empty ds).extract 0 n).extract 0
       (appendAll C ByteArray.empty (ds.take j)).size) es = _
     rw [hcut]
 
+/-! ## the strict reader (`tol = false`): a torn tail is an error
+
+Every reader except the one `loadIndexFromDataFiles` creates for the active file is strict.  For a
+strict reader an incomplete chunk at the end of the file is corruption unless only zeros follow.
+The statements below mirror the `_cut` lemmas above.  Three kinds of cut leave NO incomplete chunk
+behind and therefore still read as end of file for both readers (they are covered by the `_cut`
+lemmas for `tol = true`, and excluded by hypothesis here): a cut at a record boundary, a cut inside
+the zero padding in front of a record, and a cut at a block boundary between two chunks of a
+multi-chunk record (the next block does not exist: `off >= fileSize` in `DataReader.next`). -/
+
+/-- strict reader: a chunk cut strictly short with at least one byte present, whose present bytes are
+    not all zero, is an error -/
+theorem chunkSeq_cut_strict (pre p : ByteArray) (t : CT) (block off k : Nat)
+    (hpre : pre.size = block * BS + off) (hfit : off + H + p.size ≤ BS) (hp : p.size ≤ 65535)
+    (hk0 : 0 < k) (hk : k < H + p.size)
+    (hnz : allZeroFrom (pre ++ (C.enc t p).extract 0 k) (block * BS + off) = false) :
+    chunkSeq C false (pre ++ (C.enc t p).extract 0 k) block off = .err := by
+  have hH := hH; have hBS := hBS
+  have hs := C.size_enc t p
+  have hes : ((C.enc t p).extract 0 k).size = k := size_extract0 _ _ (by omega)
+  unfold chunkSeq
+  simp only [ByteArray.size_append, hes, hpre]
+  rw [if_neg (by omega)]
+  have hmin : min (block * BS + off + k - block * BS) BS = off + k := by
+    simp only [Nat.min_def]; split <;> omega
+  rw [hmin, if_neg (by omega)]
+  have hex : (pre ++ (C.enc t p).extract 0 k).extract (block * BS + off) (block * BS + (off + k))
+      = (C.enc t p).extract 0 k := by
+    rw [ByteArray.extract_append, extract_ge_size pre _ _ (by omega), ← hpre]
+    simp only [Nat.sub_self, ByteArray.empty_append]
+    rw [extract_all _ _ (by omega)]
+  rw [hex, C.dec_short t p k hp hk]
+  simp only []
+  rw [hnz, if_neg (by simp)]
+
+/-- strict reader: a strict prefix of a block-aligned run of Middle…Last chunks that ends inside a
+    chunk (not at a block boundary) whose present bytes are not all zero is an error -/
+theorem nextAt_rest_cut_strict (d : ByteArray) (fuel : Nat) :
+    ∀ (pre : ByteArray) (block k rf : Nat), pre.size = block * BS → 0 < d.size → d.size ≤ fuel →
+      k < (restChunks C d fuel).size → k < rf → k % BS ≠ 0 →
+      allZeroFrom (pre ++ (restChunks C d fuel).extract 0 k) ((block + k / BS) * BS) = false →
+      nextAt C false (pre ++ (restChunks C d fuel).extract 0 k) block 0 rf = .err := by
+  induction fuel generalizing d with
+  | zero => intro pre block k rf _ h1 h2; omega
+  | succ n ih =>
+    intro pre block k rf hpre hd hf hk hrf hkb hnz
+    have hH := hH; have hBS := hBS
+    have hk0 : 0 < k := by
+      cases k with
+      | zero => simp at hkb
+      | succ _ => omega
+    cases rf with
+    | zero => omega
+    | succ r =>
+    by_cases hle : d.size ≤ BS - H
+    · have hr : restChunks C d (n+1) = C.enc 3 d := by rw [restChunks, if_pos hle]
+      rw [hr] at hk hnz ⊢
+      rw [C.size_enc] at hk
+      have hkd : k / BS = 0 := by simp only [hBS] at hk hle ⊢; omega
+      rw [hkd] at hnz
+      unfold nextAt
+      rw [chunkSeq_cut_strict C pre d 3 block 0 k (by omega) (by omega) (by omega) hk0 hk
+        (by simpa using hnz)]
+    · have hr : restChunks C d (n+1)
+          = C.enc 2 (d.extract 0 (BS - H)) ++ restChunks C (d.extract (BS - H) d.size) n := by
+        rw [restChunks, if_neg hle]
+      rw [hr] at hk hnz ⊢
+      have hA : (C.enc 2 (d.extract 0 (BS - H))).size = BS := by
+        rw [size_enc_mid C d 2 (BS - H) (by omega)]; omega
+      have hps : (d.extract 0 (BS - H)).size = BS - H := size_extract0 _ _ (by omega)
+      by_cases hkb' : k < BS
+      · rw [extract0_append_le _ _ _ (by omega)] at hnz ⊢
+        have hkd : k / BS = 0 := by simp only [hBS] at hkb' ⊢; omega
+        rw [hkd] at hnz
+        unfold nextAt
+        rw [chunkSeq_cut_strict C pre (d.extract 0 (BS - H)) 2 block 0 k (by omega) (by omega)
+          (by omega) hk0 (by omega) (by simpa using hnz)]
+      · rw [extract0_append_ge _ _ _ (by omega), hA, ← ByteArray.append_assoc] at hnz ⊢
+        unfold nextAt
+        rw [chunkSeq_enc C false pre _ (d.extract 0 (BS - H)) 2 block 0 (by omega) (by omega) (by omega)
+          (by decide)]
+        simp only []
+        rw [if_neg (by decide)]
+        have hsz : (pre ++ C.enc 2 (d.extract 0 (BS - H))).size = (block + 1) * BS := by
+          rw [ByteArray.size_append, hA, hpre, Nat.add_mul]; omega
+        rw [ByteArray.size_append, hA] at hk
+        have hidx : (block + k / BS) * BS = (block + 1 + (k - BS) / BS) * BS := by
+          simp only [hBS] at hkb' ⊢; omega
+        rw [hidx] at hnz
+        rw [ih (d.extract (BS - H) d.size) _ (block+1) (k - BS) r hsz
+          (by simp [ByteArray.size_extract]; omega) (by simp [ByteArray.size_extract]; omega)
+          (by omega) (by omega) (by simp only [hBS] at hkb hkb' ⊢; omega) hnz]
+
+/-- strict reader: a strict prefix of the chunks of one record (first chunk at (block, off)) that
+    ends inside a chunk — at least one chunk byte present, the file does not end at a block
+    boundary — whose last, incomplete chunk is not all zero is an error.  The incomplete chunk
+    starts at `pre.size` (first chunk) or at the start of the file's last block (later chunks). -/
+theorem nextAt_rec_cut_strict (d pre : ByteArray) (block off k rf : Nat)
+    (hpre : pre.size = block * BS + off) (hoff : off + H < BS) (hd : 0 < d.size)
+    (hk0 : 0 < k) (hk : k < (recChunks C d off).size) (hrf : k < rf) (hkb : (off + k) % BS ≠ 0)
+    (hnz : allZeroFrom (pre ++ (recChunks C d off).extract 0 k)
+      (max pre.size ((block * BS + off + k) / BS * BS)) = false) :
+    nextAt C false (pre ++ (recChunks C d off).extract 0 k) block off rf = .err := by
+  have hH := hH; have hBS := hBS
+  cases rf with
+  | zero => omega
+  | succ r =>
+  by_cases hle : d.size ≤ BS - off - H
+  · have hr : recChunks C d off = C.enc 0 d := by
+      unfold recChunks; simp only []; rw [if_pos hle]
+    rw [hr] at hk hnz ⊢
+    rw [C.size_enc] at hk
+    have hmax : max pre.size ((block * BS + off + k) / BS * BS) = block * BS + off := by
+      rw [hpre]; simp only [hBS] at hk hle hoff ⊢; omega
+    rw [hmax] at hnz
+    unfold nextAt
+    rw [chunkSeq_cut_strict C pre d 0 block off k hpre (by omega) (by omega) hk0 hk hnz]
+  · have hr : recChunks C d off = C.enc 1 (d.extract 0 (BS - off - H))
+        ++ restChunks C (d.extract (BS - off - H) d.size) d.size := by
+      unfold recChunks; simp only []; rw [if_neg hle]
+    rw [hr] at hk hnz ⊢
+    have hA : (C.enc 1 (d.extract 0 (BS - off - H))).size = BS - off := by
+      rw [size_enc_mid C d 1 (BS - off - H) (by omega)]; omega
+    have hps : (d.extract 0 (BS - off - H)).size = BS - off - H := size_extract0 _ _ (by omega)
+    by_cases hkb' : k < BS - off
+    · rw [extract0_append_le _ _ _ (by omega)] at hnz ⊢
+      have hmax : max pre.size ((block * BS + off + k) / BS * BS) = block * BS + off := by
+        rw [hpre]; simp only [hBS] at hkb' hoff ⊢; omega
+      rw [hmax] at hnz
+      unfold nextAt
+      rw [chunkSeq_cut_strict C pre (d.extract 0 (BS - off - H)) 1 block off k hpre (by omega) (by omega)
+        hk0 (by omega) hnz]
+    · have hgt : BS - off < k := by
+        have : k ≠ BS - off := by
+          intro e; subst e; simp only [hBS] at hkb hoff; omega
+        omega
+      rw [extract0_append_ge _ _ _ (by omega), hA, ← ByteArray.append_assoc] at hnz ⊢
+      unfold nextAt
+      rw [chunkSeq_enc C false pre _ (d.extract 0 (BS - off - H)) 1 block off hpre (by omega) (by omega)
+        (by decide)]
+      simp only []
+      rw [if_neg (by decide)]
+      have hsz : (pre ++ C.enc 1 (d.extract 0 (BS - off - H))).size = (block + 1) * BS := by
+        rw [ByteArray.size_append, hA, hpre, Nat.add_mul]; omega
+      rw [ByteArray.size_append, hA] at hk
+      have hmax : max pre.size ((block * BS + off + k) / BS * BS)
+          = (block + 1 + (k - (BS - off)) / BS) * BS := by
+        rw [hpre]; simp only [hBS] at hgt hoff ⊢; omega
+      rw [hmax] at hnz
+      rw [nextAt_rest_cut_strict C (d.extract (BS - off - H) d.size) d.size _ (block+1) (k - (BS - off)) r hsz
+        (by simp [ByteArray.size_extract]; omega) (by simp [ByteArray.size_extract])
+        (by omega) (by omega) (by simp only [hBS] at hkb hgt hoff ⊢; omega) hnz]
+
+/-- **the cut record, strict reader**: a file that ends with a strict prefix of the bytes
+    `writeToBuf` appends for one record, cut behind the padding and not at a block boundary (so that
+    at least one byte of an incomplete chunk is present), reads as an ERROR from the end state of
+    the file before that record — unless the incomplete chunk's present bytes are all zero -/
+theorem nextAt_write_cut_strict (d f : ByteArray) (m rf : Nat) (hd : 0 < d.size)
+    (hm0 : padOf (f.size % BS) < m) (hm : m < (writeRec C d (f.size % BS)).size) (hrf : m < rf)
+    (hmb : (f.size + m) % BS ≠ 0)
+    (hnz : allZeroFrom (f ++ (writeRec C d (f.size % BS)).extract 0 m)
+      (max (f.size + padOf (f.size % BS)) ((f.size + m) / BS * BS)) = false) :
+    nextAt C false (f ++ (writeRec C d (f.size % BS)).extract 0 m) (endB f) (endO f) rf = .err := by
+  have hH := hH; have hBS := hBS
+  have hmod := mod_lt_BS f.size
+  have hdm := size_split f.size
+  have hpad := size_pad f
+  rw [ByteArray.size_append, size_zeros] at hpad
+  rw [writeRec_pos C d _ hd] at hm hnz ⊢
+  rw [extract0_append_ge _ _ _ (by rw [size_zeros]; omega), size_zeros, ← ByteArray.append_assoc] at hnz ⊢
+  rw [ByteArray.size_append, size_zeros] at hm
+  have hsum : normB (f.size / BS) (f.size % BS) * BS + normO (f.size % BS) + (m - padOf (f.size % BS))
+      = f.size + m := by omega
+  exact nextAt_rec_cut_strict C d (f ++ zeros (padOf (f.size % BS))) (normB (f.size / BS) (f.size % BS))
+    (normO (f.size % BS)) (m - padOf (f.size % BS)) rf (size_pad f) (normO_lt _ hmod) hd
+    (by omega) (by omega) (by omega)
+    (by
+      have e : (normO (f.size % BS) + (m - padOf (f.size % BS))) % BS = (f.size + m) % BS := by
+        rw [← hsum, Nat.add_assoc, Nat.mul_comm, Nat.mul_add_mod]
+      rw [e]; exact hmb)
+    (by rw [hsum, ByteArray.size_append, size_zeros]; exact hnz)
+
+/-- **scan of a file cut inside record `j`, strict reader, from the end state of an arbitrary prefix
+    `f`**: the cut `n` lies behind the padding in front of record `j` and before the record's end, not
+    at a block boundary, and the present bytes of the incomplete chunk are not all zero.  The scan
+    returns the `j` records in front of the cut and then fails. -/
+theorem scanFrom_truncate_strict (fid : Nat) (ds : List ByteArray) :
+    ∀ (j : Nat) (f : ByteArray) (v n fuel : Nat), (∀ d ∈ ds, 0 < d.size) → j < ds.length →
+      (appendAll C f (ds.take j)).size + padOf ((appendAll C f (ds.take j)).size % BS) < n →
+      n < (appendAll C f (ds.take (j+1))).size → n - f.size < fuel → n % BS ≠ 0 →
+      allZeroFrom ((appendAll C f ds).extract 0 n)
+        (max ((appendAll C f (ds.take j)).size + padOf ((appendAll C f (ds.take j)).size % BS))
+          (n / BS * BS)) = false →
+      scanFrom C false fid ((appendAll C f ds).extract 0 n) (endB f) (endO f) v fuel
+        = { recs := (ds.take j).zip (posAll C fid f (ds.take j)),
+            validEnd := if j = 0 then v else (appendAll C f (ds.take j)).size,
+            ok := false } := by
+  induction ds with
+  | nil => intro j f v n fuel _ hj; simp at hj
+  | cons d t ih =>
+    intro j f v n fuel hpos hj hlo hhi hfuel hnb hnz
+    have hd : 0 < d.size := hpos d (by simp)
+    have ht : ∀ x ∈ t, 0 < x.size := fun x hx => hpos x (by simp [hx])
+    cases fuel with
+    | zero => omega
+    | succ m =>
+    obtain ⟨tail, htail⟩ := appendAll_split C t (appendRec C f d)
+    have hg : appendAll C f (d :: t) = appendRec C f d ++ tail := by
+      rw [appendAll_cons]; exact htail
+    have h2 := size_appendRec_gt C f d hd
+    cases j with
+    | zero =>
+      -- the first record is the cut one
+      have e0 : appendAll C f ((d :: t).take 0) = f := by simp [appendAll]
+      have e1 : appendAll C f ((d :: t).take (0+1)) = appendRec C f d := by simp [appendAll]
+      rw [e0] at hlo hnz
+      rw [e1] at hhi
+      have hfn : f.size ≤ n := by omega
+      have hT : (appendAll C f (d :: t)).extract 0 n
+          = f ++ (writeRec C d (f.size % BS)).extract 0 (n - f.size) := by
+        rw [hg, extract0_append_le _ _ _ (by omega)]
+        unfold appendRec
+        rw [extract0_append_ge _ _ _ hfn]
+      have hws : (appendRec C f d).size = f.size + (writeRec C d (f.size % BS)).size := by
+        unfold appendRec; rw [ByteArray.size_append]
+      have hfm : f.size + (n - f.size) = n := by omega
+      rw [hT] at hnz ⊢
+      simp only [scanFrom]
+      rw [nextAt_write_cut_strict C d f (n - f.size) _ hd (by omega) (by omega)
+        (by rw [ByteArray.size_append, size_extract0 _ _ (by omega)]; omega)
+        (by rw [hfm]; exact hnb) (by rw [hfm]; exact hnz)]
+      simp [posAll]
+    | succ j' =>
+      -- the first record is whole: read it, continue behind it
+      have etk : ∀ i, appendAll C f ((d :: t).take (i+1)) = appendAll C (appendRec C f d) (t.take i) := by
+        intro i; rw [List.take_succ_cons, appendAll_cons]
+      rw [etk] at hlo hhi hnz
+      have hge : (appendRec C f d).size ≤ n := by
+        obtain ⟨tl, htl⟩ := appendAll_split C (t.take j') (appendRec C f d)
+        rw [htl, ByteArray.size_append] at hlo; omega
+      have hT : (appendAll C f (d :: t)).extract 0 n
+          = appendRec C f d ++ tail.extract 0 (n - (appendRec C f d).size) := by
+        rw [hg, extract0_append_ge _ _ _ hge]
+      obtain ⟨b', o', hread, hend, h1, h2'⟩ := nextAt_write C false d f
+        (tail.extract 0 (n - (appendRec C f d).size))
+        ((appendRec C f d ++ tail.extract 0 (n - (appendRec C f d).size)).size + 1) hd
+        (by rw [ByteArray.size_append]; omega)
+      have hnext := end_after b' o' (appendRec C f d).size hend h1 h2'
+      rw [appendAll_cons] at hnz
+      have hscan := ih j' (appendRec C f d) (b' * BS + o') n m ht
+        (by simp only [List.length_cons] at hj; omega) hlo hhi (by omega) hnb hnz
+      simp only [scanFrom]
+      rw [hT, hread]
+      simp only []
+      rw [hnext.1, hnext.2, ← hT, appendAll_cons]
+      simp only [endB, endO] at hscan
+      rw [hscan]
+      simp only [List.take_succ_cons, posAll, List.zip_cons_cons, appendAll_cons,
+        Nat.add_one_ne_zero, if_false, ScanRes.mk.injEq, and_true]
+      refine ⟨?_, ?_⟩
+      · simp [endB, endO, posOf]
+      · split
+        · rename_i h; subst h; simp [appendAll, hend]
+        · rfl
+
+/-- **a torn tail is an error for the strict reader** (every reader except the active file's): cut
+    a file built by appends at a length `n` that falls inside the chunk bytes of record `j` — behind
+    the padding in front of it, before its end, and not at a block boundary — such that the present
+    bytes of the incomplete chunk (which starts at the record's first chunk or at the start of the
+    file's last block, whichever is later) are not all zero.  The strict scan returns the `j`
+    records in front of the cut with the writer's positions and then reports an ERROR; it does not
+    silently drop the rest. -/
+theorem scan_truncate_strict (fid : Nat) (ds : List ByteArray) (hpos : ∀ d ∈ ds, 0 < d.size) (j n : Nat)
+    (hj : j < ds.length)
+    (hlo : (appendAll C ByteArray.empty (ds.take j)).size
+      + padOf ((appendAll C ByteArray.empty (ds.take j)).size % BS) < n)
+    (hhi : n < (appendAll C ByteArray.empty (ds.take (j+1))).size)
+    (hnb : n % BS ≠ 0)
+    (hnz : allZeroFrom ((appendAll C ByteArray.empty ds).extract 0 n)
+      (max ((appendAll C ByteArray.empty (ds.take j)).size
+          + padOf ((appendAll C ByteArray.empty (ds.take j)).size % BS)) (n / BS * BS)) = false) :
+    scan C false fid ((appendAll C ByteArray.empty ds).extract 0 n)
+      = { recs := (ds.take j).zip (posAll C fid ByteArray.empty (ds.take j)),
+          validEnd := (appendAll C ByteArray.empty (ds.take j)).size,
+          ok := false } := by
+  have hn : n ≤ (appendAll C ByteArray.empty ds).size := by
+    have := size_appendAll_take_le C ByteArray.empty ds (j+1); omega
+  have hscan := scanFrom_truncate_strict C fid ds j ByteArray.empty 0 n (n+1) hpos hj hlo hhi
+    (by omega) hnb hnz
+  unfold scan
+  rw [size_extract0 _ _ hn]
+  have e0 : endB ByteArray.empty = 0 := by decide
+  have e1 : endO ByteArray.empty = 0 := by decide
+  rw [e0, e1] at hscan
+  rw [hscan]
+  simp only [ScanRes.mk.injEq, true_and, and_true]
+  split
+  · rename_i h; subst h; simp [appendAll]
+  · rfl
+
 /-! ## non-vacuity -/
 
-/-- the laws of `Codec` are satisfiable: the theorem holds for the concrete CRC-32 codec -/
+/-- the laws of `Codec` are satisfiable: the theorems hold for the concrete CRC-32 codec -/
 example := scan_truncate Chunk.crcCodec
+example := scan_truncate_strict Chunk.crcCodec
 
 /-- a single record cut anywhere at or before its payload length (in fact anywhere before its end,
     see the next example): the scan sees an empty, clean log -/
 example (fid : Nat) (d : ByteArray) (hd : 0 < d.size) (n : Nat) (hn : n ≤ d.size) :
-    scan C fid ((appendAll C ByteArray.empty [d]).extract 0 n)
+    scan C true fid ((appendAll C ByteArray.empty [d]).extract 0 n)
       = { recs := [], validEnd := 0, ok := true } := by
   have hsz := size_appendRec_gt C ByteArray.empty d hd
   have hb : appendAll C ByteArray.empty [d] = appendRec C ByteArray.empty d := by simp [appendAll]
@@ -399,7 +702,7 @@ example (fid : Nat) (d : ByteArray) (hd : 0 < d.size) (n : Nat) (hn : n ≤ d.si
 example (fid : Nat) (d1 d2 : ByteArray) (hd1 : 0 < d1.size) (hd2 : 0 < d2.size) (n : Nat)
     (h1 : (appendRec C ByteArray.empty d1).size ≤ n)
     (h2 : n ≤ (appendRec C ByteArray.empty d1).size + d2.size) :
-    scan C fid ((appendAll C ByteArray.empty [d1, d2]).extract 0 n)
+    scan C true fid ((appendAll C ByteArray.empty [d1, d2]).extract 0 n)
       = { recs := [(d1, posOf C fid 0 d1)], validEnd := (appendRec C ByteArray.empty d1).size,
           ok := true } := by
   have hsz := size_appendRec_gt C (appendRec C ByteArray.empty d1) d2 hd2
